@@ -30,6 +30,7 @@ var vTags = []string{"q0", "q1", "q2", "q3", "q4", "q5", "q6", "q7", "q8", "q9",
 // vCalls is indexed by the first request of the call, so the bookkeeping does not depend on the schedule
 var vCalls = make([][]string, len(vTags))
 var vEmptyCalls int
+var vUploadCalls int
 var vFailedAt = make([]bool, len(vTags))
 
 func vIndex(tag string) int {
@@ -43,6 +44,19 @@ func vIndex(tag string) int {
 
 // verifDo is what (*http.Client).Do becomes
 func verifDo(req *http.Request) (*http.Response, error) {
+	if mp := verifRequestMultipart(req); mp != nil {
+		// a request that carries files travels alone, as multipart/form-data, and is answered with one object
+		opsPart, _ := mp["operations"].(map[string]interface{})
+		opsBytes, _ := opsPart["data"].([]byte)
+		var one requests.Request
+		verifAssert(json.Unmarshal(opsBytes, &one) == nil, "operations is one JSON request")
+		i := vIndex(one.Query)
+		verifAssert(i >= 0 && vCalls[i] == nil, "a request is sent in one HTTP call only")
+		vCalls[i] = []string{one.Query}
+		vUploadCalls++
+		b, _ := json.Marshal(map[string]interface{}{"data": map[string]interface{}{"tag": one.Query}})
+		return &http.Response{StatusCode: 200, Body: &vBody{b}}, nil
+	}
 	var ins []*requests.Request
 	if err := json.Unmarshal(verifRequestBody(req), &ins); err != nil {
 		verifAssert(false, "the HTTP body is a JSON array of requests")
@@ -58,9 +72,14 @@ func verifDo(req *http.Request) (*http.Response, error) {
 	first := vIndex(tags[0])
 	verifAssert(vCalls[first] == nil, "a request is sent in one HTTP call only")
 	vCalls[first] = tags
+	status := 200
 	if !vNoFail && verifBool("failcall_"+vTags[first]) {
 		vFailedAt[first] = true
-		return nil, errors.New("transport error")
+		if !vFailByStatus {
+			return nil, errors.New("transport error")
+		}
+		// the call fails with a non-2xx status although its body is a well-formed answer
+		status = 502
 	}
 	out := make([]map[string]interface{}, len(ins))
 	emptyErrs := vEmptyErrs
@@ -71,11 +90,12 @@ func verifDo(req *http.Request) (*http.Response, error) {
 		}
 	}
 	b, _ := json.Marshal(out)
-	return &http.Response{StatusCode: 200, Body: &vBody{b}}, nil
+	return &http.Response{StatusCode: status, Body: &vBody{b}}, nil
 }
 
 var vEmptyErrs bool
 var vNoFail bool // the transport is healthy from here on
+var vFailByStatus bool // failing calls answer 502 with a well-formed body instead of a transport error
 
 // verifNewCancel backs context.WithCancel (engine model): a done channel and its cancel function
 func verifNewCancel() (chan struct{}, func()) {
@@ -94,6 +114,7 @@ func verifNewCancel() (chan struct{}, func()) {
 
 func VerifQuery() {
 	vEmptyErrs = verifBool("emptyerrors") // every healthy answer of this run carries "errors": [] or none does
+	vFailByStatus = verifBool("failbystatus")
 	N := verifChoice("N", verifParam("nmax", 3)+1)
 	m := verifInt("m", 1, verifParam("mmax", 2))
 	q := &MultiOpQueryer{url: "u", client: &http.Client{Transport: vNativeTransport{verifDo}}, maxBatchSize: m}
@@ -151,6 +172,50 @@ func VerifQuery() {
 		verifAssert(err2 == nil && len(res2) == 1 && res2[0] != nil && res2[0]["tag"] == vTags[len(vTags)-1], "the next call on the same queryer is served as well")
 		verifReach("second call")
 	}
+}
+
+// VerifMixedUploads: requests that carry files are sent alone (multipart), the others in batches of at
+// most m; whatever the positions of the two kinds, result i answers request i and every request is
+// sent exactly once.
+func VerifMixedUploads() {
+	vNoFail = true
+	N := 1 + verifChoice("N", verifParam("nmax", 4))
+	m := verifInt("m", 1, verifParam("mmax", 3))
+	q := &MultiOpQueryer{url: "u", client: &http.Client{Transport: vNativeTransport{verifDo}}, maxBatchSize: m}
+	inputs := make([]*requests.Request, N)
+	nup := 0
+	for i := range inputs {
+		inputs[i] = &requests.Request{Query: vTags[i]}
+		if verifChoice("upload"+verifItoa(i), 2) == 1 {
+			nup++
+			inputs[i].Variables = map[string]interface{}{"f": &requests.Upload{File: &vBody{[]byte("bytes of " + vTags[i])}, FileName: "f" + verifItoa(i)}}
+		}
+	}
+	res, err := q.Query(inputs)
+	verifAssert(err == nil, "no error when no call failed")
+	verifAssert(len(res) == N, "exactly N results")
+	verifAssert(vUploadCalls == nup, "every request with files is sent in a call of its own")
+	for i := 0; i < N && i < len(res); i++ {
+		verifAssert(vCalls[i] != nil || vSentInBatch(vTags[i]), "every request is sent")
+		verifAssert(res[i] != nil && res[i]["tag"] == vTags[i], "result i answers request i")
+	}
+	for _, c := range vCalls {
+		verifAssert(len(c) <= m, "a call never carries more than m requests")
+	}
+	if nup > 0 && nup < N {
+		verifReach("uploads mixed with plain requests")
+	}
+}
+
+func vSentInBatch(tag string) bool {
+	for _, c := range vCalls {
+		for _, t := range c {
+			if t == tag {
+				return true
+			}
+		}
+	}
+	return false
 }
 
 // VerifSplice: one inductive step of the reducer closure of Query from an arbitrary valid
